@@ -208,7 +208,7 @@ def oracle_name(I, s, e2e=True):
     if N.pythonize_class_name(P) != P:
         yield (CLS_PASCAL if not pascal_stable_ws(ws) else "pascal-unexpected",
                f"pythonize_class_name is not idempotent on {s!r}: {P!r} -> {N.pythonize_class_name(P)!r}")
-    for en in ("Color", s, "E"):
+    for en in ("Color", s, "E") if s.isidentifier() else ():
         for mem in (s, s.upper(), C.snake_case(en).upper() + "_" + s.upper()):
             v = N.pythonize_enum_member_name(mem, en)
             if not (v.isidentifier() and not keyword.iskeyword(v)):
@@ -406,10 +406,12 @@ def run(ctx):
     # ---------------------------------------------------------------- exhaustive sweeps, by checksum
     shards = []
     for alpha, n in [(A8, n5), (ABOUND, 3 if not ctx.thorough else 4)] + ([(ADEEP, 8)] if ctx.thorough else []):
-        shards.append((alpha, 1, ""))
-        for a in alpha:
-            for b in alpha:
-                shards.append((alpha, n - 2, a + b))
+        if len(alpha) > 8:
+            shards.append((alpha, 0, ""))
+            shards += [(alpha, n - 1, a) for a in alpha]
+        else:
+            shards.append((alpha, 1, ""))
+            shards += [(alpha, n - 2, a + b) for a in alpha for b in alpha]
 
     def model_sum(sh):
         alpha, n, prefix = sh
